@@ -491,7 +491,7 @@ func TestC16(t *testing.T) {
 			}
 		}
 	}
-	for _, r := range []struct{ kind, s string }{{"int", "12"}, {"int", "-7"}, {"int", "0"}, {"uint", "65"}, {"uint8", "97"}, {"uint16", "48"}, {"uint32", "8364"}, {"uint64", "12"}, {"int8", "-7"}, {"int64", "66"}, {"float", "2.5"}, {"float", "-0.25"}, {"bool", "true"}, {"bool", "false"}, {"nil", ""}} {
+	for _, r := range []struct{ kind, s string }{{"int", "12"}, {"int", "-7"}, {"int", "0"}, {"uint", "65"}, {"uint8", "97"}, {"uint16", "48"}, {"uint32", "8364"}, {"uint64", "12"}, {"int8", "-7"}, {"int64", "66"}, {"float", "2.5"}, {"float", "-0.25"}, {"float", "1e-06"}, {"float", "2.5e-07"}, {"bool", "true"}, {"bool", "false"}, {"nil", ""}} {
 		// (size is left out: it is also an array filter, and what it says about a number is not stated)
 		for _, f := range []string{"upcase", "downcase", "capitalize", "strip", "escape", "url_encode"} {
 			run(&c16Case{Filter: f, S: r.s, Recv: r.kind})
